@@ -217,7 +217,7 @@ def t6(ctx, rep, T):
         # aliases typeshare itself emits (Scala)
         aliases = {}
         if be == 'scala':
-            for s in ctx.fn('Scala::write_unsigned_aliases', file='scala.rs')['sites']:
+            for s in ctx.fnx('Scala::write_unsigned_aliases', file='scala.rs')['sites']:
                 m = re.match(r'type (\w+) = (\w+)', vt.fmt_text(s['fmt']))
                 if m:
                     aliases[m.group(1)] = m.group(2)
